@@ -530,7 +530,8 @@ func (r *Message) decode(decoder Decoder) (int, error) {
 		n, err = decoder.Decode(r.bufferUnmarshal, &r.msg)
 		if errors.Is(err, message.ErrOptionsTooSmall) {
 			// increase buffer size and try again
-			r.msg.Options = make(message.Options, 0, len(r.msg.Options)*2)
+			// (at least 16: doubling an empty slice would never make room and loop forever)
+			r.msg.Options = make(message.Options, 0, max(len(r.msg.Options)*2, 16))
 			continue
 		}
 		return n, err
